@@ -596,6 +596,32 @@ func (g *G) MultiLineString() geom.MultiLineString {
 			return geom.NewMultiLineString(ls)
 		}
 	}
+	if g.R.Chance(1, 4) {
+		// open members that chain into a closed loop: every end point is shared by an
+		// even number of members, so the mod-2 boundary is empty although no member is closed
+		if ring := g.ringConvex(g.R.Range(3, 6)); ring != nil && len(ring) >= 4 {
+			m := len(ring) - 1 // segments
+			cut1 := g.R.Range(1, m-1)
+			pieces := [][]ip{ring[:cut1+1], ring[cut1:]}
+			if m-cut1 >= 2 && g.R.Bool() {
+				cut2 := g.R.Range(cut1+1, m-1)
+				pieces = [][]ip{ring[:cut1+1], ring[cut1 : cut2+1], ring[cut2:]}
+			}
+			for _, pc := range pieces {
+				q := append([]ip(nil), pc...)
+				if g.R.Bool() {
+					for i, j := 0, len(q)-1; i < j; i, j = i+1, j-1 {
+						q[i], q[j] = q[j], q[i]
+					}
+				}
+				ls = append(ls, g.line(q))
+			}
+			if valid(geom.NewMultiLineString(ls).AsGeometry()) {
+				return geom.NewMultiLineString(ls)
+			}
+			ls = nil
+		}
+	}
 	for i := 0; i < n; i++ {
 		ls = append(ls, g.LineString())
 	}
